@@ -157,6 +157,7 @@ struct Th {
     panicked: bool,
     slow: bool,
     stalled_ms: u64,
+    last_site: &'static str,
 }
 
 #[derive(Debug, Clone, Default)]
@@ -223,7 +224,15 @@ fn hash_str(s: &str) -> u64 {
 }
 
 /// names of probes whose data is kept (the rest are only counted)
-const KEPT_PROBES: &[&str] = &["analysis", "auto_diag_seen", "lock_timeout", "harness"];
+const KEPT_PROBES: &[&str] = &[
+    "analysis",
+    "auto_diag_seen",
+    "lock_timeout",
+    "harness",
+    "check_file_begin",
+    "check_file_end",
+    "recheck_skipped_no_change",
+];
 
 impl Runtime {
     /// Creates the runtime, registers the calling thread as sim thread 0 and installs it.
@@ -287,6 +296,7 @@ impl Runtime {
             panicked: false,
             slow: false,
             stalled_ms: 0,
+            last_site: "",
         };
         let inner = Inner {
             cfg,
@@ -392,6 +402,15 @@ impl Runtime {
     fn abort(&self, mut g: std::sync::MutexGuard<'_, Inner>, why: &str) -> ! {
         g.stats.aborted = Some(why.to_string());
         g.finished = true;
+        // who was doing what: thread name, state, the site it last passed
+        let mut where_ = vec![];
+        for t in g.threads.iter() {
+            if t.st != St::Finished {
+                where_.push(format!("{}:{:?}@{}", t.name, t.st, t.last_site));
+            }
+        }
+        let why = format!("{why} [{}]", where_.join(" "));
+        let why = why.as_str();
         drop(g);
         if let Some(h) = self.abort_hook.lock().unwrap().as_ref() {
             h(why);
@@ -616,6 +635,7 @@ impl SimRuntime for Handle {
         let rt = self.0;
         let mut g = rt.inner.lock().unwrap();
         let me = Runtime::me(&g);
+        g.threads[me as usize].last_site = site;
         *g.stats.sites.entry(site.to_string()).or_insert(0) += 1;
         let (mut p, mut max) = (g.cfg.faults.stall_p, g.cfg.faults.stall_max_ms);
         if g.threads[me as usize].slow {
@@ -655,6 +675,7 @@ impl SimRuntime for Handle {
         t.st = St::Sleeping;
         t.wake_at = now + us.max(1);
         t.tag = tag;
+        t.last_site = site;
         rt.reschedule(g, me, "sleep", site);
     }
 
@@ -693,6 +714,7 @@ impl SimRuntime for Handle {
             panicked: false,
             slow,
             stalled_ms: 0,
+            last_site: "",
         });
         id
     }
